@@ -2,6 +2,7 @@
 the real CdnsExporter by harness/exp_driver.cpp; TLC validates every call and every closed
 output with TraceExporter.tla (Exporter state machine + independent RFC 8949/8618 reading)."""
 import json
+from pathlib import Path
 import random
 import shutil
 
@@ -33,6 +34,26 @@ def run_histories(chk, histories, relevant, label="exp", flavor="plain", sample=
     return merged
 
 
+def hung_to_crash(files, what):
+    """A driver that did not end within its time is an outcome of the implementation, not a failure of the machinery: the
+    traces it wrote so far are completed with an explicit CRASH event, which the trace specification records."""
+    for f in files:
+        f = Path(f)
+        lines = f.read_text().splitlines() if f.exists() else []
+        good = []
+        for ln in lines:
+            try:
+                json.loads(ln)
+                good.append(ln)
+            except Exception:
+                break
+        if good and json.loads(good[-1]).get("e") == "END":
+            continue
+        good.append(json.dumps({"e": "CRASH", "what": what}))
+        good.append(json.dumps({"e": "END"}))
+        f.write_text("\n".join(good) + "\n")
+
+
 def run_interleaved(chk, histories, relevant, label="exp2", flavor="plain"):
     """Two exporter instances operated alternately on ONE thread (histories 2k and 2k+1, calls interleaved): each must
     behave exactly as if it were alone - every per-instance trace is validated like any other execution."""
@@ -51,8 +72,10 @@ def run_interleaved(chk, histories, relevant, label="exp2", flavor="plain"):
         fa, fb = work / f"exp2.{i}.a.ndjson", work / f"exp2.{i}.b.ndjson"
         files += [fa, fb]
         cmds.append([exe, "run2", hist, i, nsh, fa, fb])
-    for cmd, rc, out in vlib.run_parallel(cmds, timeout=1500, env={"VERIF_TMP": str(work)}):
-        if rc != 0:
+    for cmd, rc, out in vlib.run_parallel(cmds, timeout=600, env={"VERIF_TMP": str(work)}):
+        if rc == 124:
+            hung_to_crash([cmd[-2], cmd[-1]], "the calls of two instances operated alternately do not terminate (driver killed after 600 s)")
+        elif rc != 0:
             raise vlib.Infra(f"exp_driver run2 failed rc={rc}: {out}")
     merged = vlib.validate_traces("TraceExporter", files, constants={"XBug": "\"none\""}, timeout=2400, label=label + "tv", xmx="4g")
     chk.add_traces(merged, relevant=relevant)
